@@ -362,6 +362,15 @@ class InverseMatcher(WrappingMatcher):
     def supports_block_quality(self):
         return False
 
+    def max_quality(self):
+        # Every posting of this matcher scores self._weight, whatever the
+        # wrapped matcher's quality is (replace() on a parent matcher uses
+        # this even though block quality is not supported)
+        return self._weight
+
+    def block_quality(self):
+        return self._weight
+
     def _find_next(self):
         child = self.child
         missing = self.missing
